@@ -88,6 +88,7 @@ def build_case(seed, i):
 def operations(g, h, model, vs):
     import penman
     from penman import layout, transform, surface
+    from penman.graph import Graph
     return {
         'encode_g_every_top': lambda: [penman.encode(g, top=v, model=model) for v in sorted(g.variables())],
         'encode_h_every_top': lambda: [_try(lambda: penman.encode(h, top=v, model=model)) for v in vs],
@@ -113,8 +114,19 @@ def operations(g, h, model, vs):
         'edges_attrs_h': lambda: (h.edges(), h.attributes(), h.instances()),
         'format_compact': lambda: penman.format(layout.configure(g, model=model), indent=None, compact=True),
         'format_triples': lambda: penman.format_triples(g.triples),
+        # a Tree built without metadata, annotated in place, must not influence any other call
+        'annotate_default_tree': lambda: _annotate(layout.configure(g, model=model).node),
+        'format_node_tuple': lambda: penman.format(layout.configure(Graph(list(g.triples), top=g.top), model=model).node),
+        'interpret_default_tree': lambda: layout.interpret(penman.Tree(layout.configure(g, model=model).node), model),
         'canonicalize_roles': lambda: transform.canonicalize_roles(layout.configure(g, model=model), model),
     }
+
+
+def _annotate(node):
+    import penman
+    t = penman.Tree(node)
+    t.metadata['note'] = 'annotated in place'
+    return penman.format(t)
 
 
 def _try(f):
